@@ -100,6 +100,12 @@ pub struct Oracle {
     pub learner_cfg_nodes: BTreeSet<u32>,
     /// peer -> virtual ms at which the latest AppendEntries with prev (0,0) and entries was sent to it
     pub prev_zero_sent: BTreeMap<u32, u64>,
+    /// (leader, follower) -> (virtual ms at which a successful append ack was delivered to the leader, ms at which
+    /// the request it answers was sent)
+    pub ack_times: BTreeMap<(u32, u32), Vec<(u64, u64)>>,
+    /// (number of granted vote responses so far, voter of the latest) - event anchor for CrashOnGrant
+    pub grant_signal: Option<tokio::sync::watch::Sender<(u64, u32)>>,
+    pub grant_count: u64,
 }
 
 pub type OracleRef = Arc<Mutex<Oracle>>;
@@ -227,6 +233,10 @@ impl Oracle {
         if role == ROLE_LEARNER {
             self.violate("C27", "learner_granted_vote", json!({"node": voter, "term": req_term, "candidate": cand}));
         }
+        self.grant_count += 1;
+        if let Some(tx) = &self.grant_signal {
+            let _ = tx.send((self.grant_count, voter));
+        }
         let g = VoteGrant { voter, voter_inc: inc, candidate: cand, term: req_term, vtime_ms: vnow(), voter_role: role };
         let list = self.grants.entry((voter, req_term)).or_default();
         let other = list.iter().find(|x| x.candidate != cand).cloned();
@@ -285,7 +295,7 @@ impl Oracle {
         }
     }
 
-    pub fn on_append_response_delivered(&mut self, leader: u32, follower: u32, resp: &AppendEntriesResponse) {
+    pub fn on_append_response_delivered(&mut self, leader: u32, follower: u32, resp: &AppendEntriesResponse, req_sent_ms: Option<u64>) {
         use d_engine_proto::server::replication::append_entries_response::Result as R;
         self.note_term(follower, resp.term, "ae_resp");
         let (kind, m) = match &resp.result {
@@ -301,6 +311,7 @@ impl Oracle {
             if m > *e {
                 *e = m;
             }
+            self.ack_times.entry((leader, follower)).or_default().push((vnow(), req_sent_ms.unwrap_or_else(vnow)));
         }
     }
 
